@@ -21,8 +21,9 @@ from simkit.runner import Outcome
 PROPERTY = 'C15'
 LEVEL = 'exploration'
 SEEDS_EXH = list(range(24))
-PLAN = {'quick': [('exh', 8 * len(SEEDS_EXH)), ('hist', 6000), ('sim', 1000)],
-        'thorough': [('exh', 8 * len(SEEDS_EXH)), ('hist', 600000), ('sim', 100000)]}
+PLAN = {'quick': [('exh', 8 * len(SEEDS_EXH)), ('hist', 6000), ('sim', 1000), ('ext', 500)],
+        'thorough': [('exh', 8 * len(SEEDS_EXH)), ('hist', 600000), ('sim', 100000),
+                     ('ext', 50000)]}
 TIMEOUT = {'quick': 900, 'thorough': 6 * 3600}
 RECHECK = 100
 FIXED_KINDS = ('exh',)   # the exhaustive part is never scaled down
@@ -35,7 +36,12 @@ RULE = ('exh: for high in 1..8 and 24 master seeds, ALL indices < high and ALL i
         'decreasing / jumping, tape-chosen; indices up to 500) on one shared cache, high in '
         '{2**31, 2**32, 2**16+1, 5000, 1000, 300, 50, 12}. '
         'sim: real sampler runs under the simulated scheduler; every submitted net\'s generator '
-        'is compared (full state) with RandomState(ref_sub_seed(seed, batch_index)). distinct = '
+        'is compared (full state) with RandomState(ref_sub_seed(seed, batch_index)). ext: the '
+        'per-run {seed} ELFI derives for the rows of a vectorized external operation (subprocess '
+        'answered in-process) - every run must receive get_sub_seed(first state word of the batch '
+        'generator at that moment, index_in_batch), whatever was drawn from the generator between '
+        'the runs (0 / 10 / 700 / 1300 normals, i.e. also across a renewal of the Mersenne-Twister '
+        'block). distinct = '
         '(kind, high, index sequence pattern) resp. abstract schedule; non-trivial = the '
         'history contains a repeated or decreasing index (cache must restart) or, for sim, a '
         'cancelled and re-submitted batch index')
@@ -360,8 +366,61 @@ def run_sim(tape, out):
                   'indices_requested_from_cache': requested[:60]}
 
 
+def run_ext(tape, out):
+    elfi = sr.reset_process_state(tape)
+    sp.clear_registry()
+    sp.REC.reset(None)
+    m = elfi.ElfiModel(name='ext')
+    t = elfi.Prior('uniform', 0, 1, model=m, name='t')
+    ndraws = tape.choice('noise_draws_per_run', [0, 0, 10, 700, 1300])
+    op = elfi.tools.vectorize(elfi.tools.external_operation(
+        'echo {0} {seed}', process_result=sp.make_noisy_result(ndraws),
+        prepare_inputs=sp.ext_record))
+    sim = elfi.Simulator(op, t, model=m, name='sim')
+    uses_meta = tape.chance('uses_meta', 3, 4)
+    if uses_meta:
+        sim.uses_meta = True
+    bs = tape.int('batch_size', 1, 8)
+    seed = sr.gen_seed(tape)
+    n_gen = tape.int('n_generate', 1, 3)
+    for g in range(n_gen):
+        del sp.EXT_LOG[:]
+        res = m.generate(bs, outputs=['sim'], seed=seed)
+        log = list(sp.EXT_LOG)
+        if len(log) != bs:
+            raise RuntimeError('external operation ran %d times for %d rows' % (len(log), bs))
+        arr = np.asarray(res['sim']).reshape(bs, -1)
+        for row, e in enumerate(log):
+            idx = e['index_in_batch'] if uses_meta else None
+            if uses_meta and idx != row:
+                out.violate('equals-reference', 'ext-index-in-batch', row=row, got=idx)
+                return
+            exp = sp.ref_sub_seed(e['master'], idx or 0)
+            if e['seed'] is None or int(e['seed']) != exp or int(arr[row][1]) != exp:
+                out.violate('history-independent', 'ext-run-seed', row=row, master=e['master'],
+                            got=None if e['seed'] is None else int(e['seed']),
+                            in_output=int(arr[row][1]), expected=exp, noise_draws=ndraws,
+                            uses_meta=uses_meta)
+                return
+        masters = {e['master'] for e in log}
+        if uses_meta and len(masters) == 1 and len({int(e['seed']) for e in log}) != bs:
+            out.violate('distinct', 'ext-rows', seeds=[int(e['seed']) for e in log])
+            return
+        if len(masters) > 1:
+            out.probes['generator_block_renewed_between_runs'] += 1
+    out.stats['external_runs'] += bs * n_gen
+    out.abstract = ('ext', bs, ndraws, uses_meta)
+    out.nontrivial = ndraws >= 700 and bs >= 2
+    out.sample = {'kind': 'ext', 'batch_size': bs, 'noise_draws_per_run': ndraws,
+                  'uses_meta': uses_meta}
+    out.ev('ext bs=%d draws=%d meta=%s' % (bs, ndraws, uses_meta))
+
+
 def run(tape, kind):
     out = Outcome()
+    if kind == 'ext':
+        run_ext(tape, out)
+        return out
     if kind == 'exh':
         run_exh(tape, out, tape.index % (8 * len(SEEDS_EXH)))
     elif kind == 'hist':
